@@ -47,7 +47,11 @@ def pools():
     MP2 = [(0, 0, 1), (1, 1, 1), (2, 2, 1), (3, 3, 1), (1, 0, 1), (0, 2, 1), (4, 4, 1), (2, 1, 1), (-1, -1, 1), (5, 5, 2), (3, 1, 1)]
     ML2 = [(1, -1, 0), (1, 0, -1), (0, 1, -1), (1, 1, -2), (2, -1, -1), (1, 0, 0), (1, 2, -3), (0, 1, 2), (3, -2, -1), (1, 1, 1), (1, -3, 2)]   # many pass through (1,1)
     MP3 = [(0, 0, 0, 1), (1, 0, 1, 1), (0, 1, 1, 1), (1, 1, 2, 1), (2, 1, 3, 1), (1, 2, 3, 1), (0, 0, 1, 1), (2, 2, 4, 1), (1, 0, 0, 1), (-1, 1, 0, 1), (3, 0, 3, 1)]
+    Q3 = [np.diag([1, 1, 1, -25]), np.diag([1, 1, -1, -1]), np.diag([4, 1, 9, -36]), np.diag([1, -1, 1, 1]), np.diag([1, 2, 3, -6]),
+          np.array([[1, 0, 0, -1], [0, 1, 0, 0], [0, 0, 1, -2], [-1, 0, -2, -4]]), np.diag([2, 1, 1, -9]), np.diag([1, 1, 4, -16]),
+          np.array([[1, 1, 0, 0], [1, 2, 0, 1], [0, 0, -1, 1], [0, 1, 1, 3]]), np.diag([1, 3, 1, -12]), np.diag([3, 1, 2, -18])]
     return {
+        "quadric3": ([g.Quadric(q) for q in Q3], lambda xs: g.QuadricCollection(np.array([x.array for x in xs]))),
         "mpoint2": ([g.Point(np.array(p)) for p in MP2], lambda xs: g.PointCollection(np.array([x.array for x in xs]))),
         "mline2": ([g.Line(np.array(l)) for l in ML2], lambda xs: g.LineCollection(np.array([x.array for x in xs]))),
         "mpoint3": ([g.Point(np.array(p)) for p in MP3], lambda xs: g.PointCollection(np.array([x.array for x in xs]))),
@@ -153,6 +157,8 @@ def optable():
     op("quadric_tangent2", ("quadric2", "point2"), lambda a, b: a.tangent(b) if not isinstance(a, g.Conic) else g.Quadric(a.array).tangent(b))
     op("quadric_is_tangent2", ("quadric2", "line2"), lambda a, b: a.is_tangent(b))
     op("quadric_intersect2", ("quadric2", "line2"), lambda a, b: a.intersect(b))
+    op("quadric_intersect3", ("quadric3", "line3x"), lambda a, b: a.intersect(b))
+    op("quadric_contains3", ("quadric3", "point3"), lambda a, b: a.contains(b))
     op("quadric_dual2", ("quadric2",), lambda a: a.dual)
     op("quadric_is_degenerate2", ("quadric2",), lambda a: a.is_degenerate)
     op("seg_contains2", ("seg2", "point2"), lambda a, b: a.contains(b))
@@ -191,7 +197,7 @@ def compare_pos(cres, sres, pos, out_shape, opname=""):
     """collection result at position pos vs the single result"""
     from geometer.base import Tensor
     cf, sf = flat(cres), flat(sres)
-    if opname == "quadric_intersect2" and len(cf) == 2 and len(sf) == 1:
+    if opname.startswith("quadric_intersect") and len(cf) == 2 and len(sf) == 1:
         sf = [sf[0], sf[0]]        # a tangent line: the single call returns the contact point once, the collection a coincident pair
     if len(cf) != len(sf):
         return f"{len(cf)} result parts for the collection, {len(sf)} for the singles"
@@ -207,7 +213,7 @@ def compare_pos(cres, sres, pos, out_shape, opname=""):
             ok = np.shape(el) == np.shape(sa) and (np.allclose(np.exp(2j * np.asarray(el)), np.exp(2j * np.asarray(sa)), atol=1e-8)
                                                    or (np.all(np.isnan(el)) and np.all(np.isnan(sa))))
         elif isinstance(s, Tensor):
-            tol = 1e-5 if opname == "quadric_intersect2" else 1e-6
+            tol = 1e-5 if opname.startswith("quadric_intersect") else 1e-6
             ok = el.shape == sa.shape and (same_class(el.reshape(-1), sa.reshape(-1), tol) if np.any(sa != 0) else np.allclose(el, 0, atol=1e-9))
         else:
             ok = el.shape == sa.shape and np.allclose(el, sa, rtol=1e-9, atol=1e-9, equal_nan=True)
@@ -219,7 +225,7 @@ def compare_pos(cres, sres, pos, out_shape, opname=""):
 SCALES = [1, 2000, 0.001, -3, 1500, -0.5]
 QSCALES = [1, 30, 0.05, -3, 20, -0.5]     # matrices of quadrics and transformations: moderate factors (absolute tolerances on
                                           # quadratic / cubic expressions of the entries are by design not scale free)
-SCALABLE = ("point2", "line2", "point3", "plane3", "line3", "quadric2", "trafo2", "cpoint2", "cpoint3", "cline2", "cplane3", "cline3", "line3x", "mpoint2", "mline2", "mpoint3")
+SCALABLE = ("point2", "line2", "point3", "plane3", "line3", "quadric2", "trafo2", "cpoint2", "cpoint3", "cline2", "cplane3", "cline3", "line3x", "mpoint2", "mline2", "mpoint3", "quadric3")
 
 
 def _rescaled(x, f):
@@ -258,7 +264,7 @@ def replay_one(d, mixed):
             pool, mk = PL[kind]
             els = [pool[(i - 1) % len(pool)] for i in r["contents"][a]]
             if mixed and kind in SCALABLE:
-                tab = QSCALES if kind in ("quadric2", "trafo2") else SCALES
+                tab = QSCALES if kind in ("quadric2", "quadric3", "trafo2") else SCALES
                 els = [_rescaled(x, tab[(k + 2 * a) % len(tab)]) for k, x in enumerate(els)]
             singles.append(els)
             if shape == ():
@@ -324,7 +330,7 @@ def replay_indexing(_):
         if not cond:
             out.append(dict(site=site, stratum="indexing", case={}, expected=exp, observed=obs))
 
-    elem = {"mpoint2": g.Point, "mline2": g.Line, "mpoint3": g.Point, "line3x": g.Line, "cpoint2": g.Point, "cpoint3": g.Point, "cline2": g.Line, "cplane3": g.Plane, "cline3": g.Line, "point2": g.Point, "line2": g.Line, "point3": g.Point, "plane3": g.Plane, "line3": g.Line, "quadric2": g.Quadric,
+    elem = {"quadric3": g.Quadric, "mpoint2": g.Point, "mline2": g.Line, "mpoint3": g.Point, "line3x": g.Line, "cpoint2": g.Point, "cpoint3": g.Point, "cline2": g.Line, "cplane3": g.Plane, "cline3": g.Line, "point2": g.Point, "line2": g.Line, "point3": g.Point, "plane3": g.Plane, "line3": g.Line, "quadric2": g.Quadric,
             "trafo2": g.Transformation, "seg2": g.Segment, "poly2": g.Polygon}
     for kind, (pool, mk) in PL.items():
         xs = pool[:6]
